@@ -162,6 +162,35 @@ TABLES = {
     'C': dict(ids=IDS_SORTED, index=[0, 1, 2, 0, 1]),        # duplicate labels (two concatenated parts)
 }
 XTHR = [1.0, 0.2, 1.0, 0.4, 0.5][_K]
+# -- tables whose individuals are NOT consecutive (the declaration panel('id') is refused, the table must stay as it is):
+# D interleaved, RangeIndex; E becomes consecutive once the individual in the middle is removed, permuted labels
+_IA, _IB, _IC = sorted(set(IDS_SORTED))
+TABLES['D'] = dict(ids=[_IB, _IA, _IC, _IA, _IB], index=None)
+TABLES['E'] = dict(ids=[_IA, _IA, _IB, _IA, _IC], index=[4, 2, 0, 3, 1])
+# -- large tables (more than 16 rows: sorting algorithms switch from insertion sort to an algorithm that need not keep the
+# order of equal keys): blocks of individuals that are consecutive but not in ascending order of identifier
+LARGE = {
+    'L1': dict(blocks=[(_IB, 20), (_IA, 20)], index='range'),                      # 2 individuals x 20 observations
+    'L2': dict(blocks=[(_IB, 20), (_IC, 20), (_IA, 20)], index='reverse'),         # 3 x 20, labels n-1 .. 0
+    'L3': dict(blocks=[(_IC, 17), (_IA, 1), (_IB, 22)], index='duplicate'),        # unequal blocks, duplicate labels
+}
+
+
+def table_spec(base):
+    """-> dict(n, ids, index, rid, xs, cs) of a root table (xs as in the mixed typing: floats)."""
+    if base in LARGE:
+        sp = LARGE[base]
+        ids = [g for g, m in sp['blocks'] for _ in range(m)]
+        n = len(ids)
+        index = {'range': None, 'reverse': list(range(n - 1, -1, -1)), 'duplicate': [i % 7 for i in range(n)]}[sp['index']]
+        return dict(n=n, ids=ids, index=index, rid=[10 * (i + 1) for i in range(n)],
+                    xs=[XS[i % 5] + 0.25 * (i // 5) for i in range(n)], cs=[CS[(i + i // 5) % 5] for i in range(n)])
+    sp = TABLES[base]
+    return dict(n=5, ids=list(sp['ids']), index=sp['index'], rid=list(RID), xs=list(XS), cs=list(CS))
+
+
+def is_large(table):
+    return split_table(table)[0] in LARGE
 # -- column types.  A table name is '<A|B|C>' (the mixed table above: x float64, id / r / c int64 as built from Python
 # numbers) or '<A|B|C>.<variant>':  i = every column int64 (x holds 4*XS), f = every column float64, v = the text of a
 # CSV file read by pandas.read_csv (x written as integers -> int64, c written as '1.0' -> float64, id / r int64).
@@ -175,8 +204,9 @@ def split_table(table):
     return base, (var or 'm')
 
 
-def table_x(var):
-    return XS if var in ('m', 'f') else XI
+def table_x(var, xs=None):
+    xs = XS if xs is None else xs
+    return list(xs) if var in ('m', 'f') else [int(v * 4) for v in xs]
 
 
 def V(n):
@@ -187,16 +217,17 @@ def N(v):
     return ('n', v)
 
 
-def conds(ids):
-    mid = ids[2]
+def conds(ids, rid=None):
+    rid = RID if rid is None else rid
+    mid = ids[len(ids) // 2]
     return {
         'c_eq_1': ('==', V('c'), N(1)),
         'c_minus_1': ('-', V('c'), N(1)),                     # negative / zero / positive condition values
         'id_mid': ('==', V('id'), N(mid)),                    # deletes a whole individual
         'zero': N(0),                                         # raw Python number: deletes nothing
         'x_gt': ('>', V('x'), N(XTHR)),
-        'first': ('==', V('r'), N(RID[0])),
-        'last': ('==', N(RID[-1]), V('r')),                   # number on the left
+        'first': ('==', V('r'), N(rid[0])),
+        'last': ('==', N(rid[-1]), V('r')),                   # number on the left
         'or': ('|', ('<', V('x'), N(0)), ('==', V('c'), N(2))),
         'y1_small': ('<', V('y1'), N(1.5)),                   # uses a column added earlier
     }
@@ -386,16 +417,16 @@ class RefTable:
 
     def __init__(self, table):
         base, var = split_table(table)
-        spec = TABLES[base]
-        xs = table_x(var)
+        spec = table_spec(base)
+        xs = table_x(var, spec['xs'])
         self.cols = list(COLS)
         self.rows = []
-        for i in range(5):
-            self.rows.append((RID[i], {'x': float(xs[i]), 'id': float(spec['ids'][i]), 'r': float(RID[i]),
-                                       'c': float(CS[i])}))
+        for i in range(spec['n']):
+            self.rows.append((spec['rid'][i], {'x': float(xs[i]), 'id': float(spec['ids'][i]), 'r': float(spec['rid'][i]),
+                                               'c': float(spec['cs'][i])}))
         self.panel = None
         self.excluded = 0
-        self.conds = conds(spec['ids'])
+        self.conds = conds(spec['ids'], spec['rid'])
 
     @classmethod
     def raw(cls, cols, rows):
@@ -708,13 +739,14 @@ def make_db(table):
     import biogeme.database as bdb
 
     base, var = split_table(table)
-    spec = TABLES[base]
-    xs = table_x(var)
+    spec = table_spec(base)
+    xs = table_x(var, spec['xs'])
+    RID, CS = spec['rid'], spec['cs']            # of this table
     if var == 'v':
         import io
 
         text = ','.join(COLS) + '\n' + ''.join(
-            f'{int(xs[i])},{int(spec["ids"][i])},{int(RID[i])},{int(CS[i])}.0\n' for i in range(5))
+            f'{int(xs[i])},{int(spec["ids"][i])},{int(RID[i])},{int(CS[i])}.0\n' for i in range(spec['n']))
         df = pd.read_csv(io.StringIO(text))
         if spec['index'] is not None:
             df.index = list(spec['index'])
